@@ -148,6 +148,9 @@ func ReadXLSX(data []byte) (*Workbook, error) {
 				v := c.V
 				switch c.T {
 				case "s":
+					if strings.TrimSpace(c.V) == "" {
+						continue
+					}
 					i, err := strconv.Atoi(strings.TrimSpace(c.V))
 					if err != nil || i < 0 || i >= len(shared) {
 						return nil, fmt.Errorf("xlsx: bad shared string index %q", c.V)
@@ -180,8 +183,9 @@ type ProfRow struct {
 	Array      string // "", "[N]", "[3]" ...
 	Components []string
 	RefFields  []string
-	Enabled    bool // EXAMPLE column == 1
-	ParentRow  int  // sub-fields: row number of the main field they belong to
+	Enabled    bool // EXAMPLE column neither empty nor "0"
+	Example    string
+	ParentRow  int // sub-fields: row number of the main field they belong to
 }
 
 // ProfType is one type of the Types sheet.
@@ -233,7 +237,10 @@ func (wb *Workbook) ProfileRows() ([]ProfRow, error) {
 		pr.Components = splitList(r.Cell(5))
 		pr.RefFields = splitList(r.Cell(11))
 		ex := strings.TrimSpace(r.Cell(15))
-		pr.Enabled = ex == "1"
+		// The generator treats an empty or "0" product cell as disabled; any
+		// other value enables the row (and, for strings and [N] arrays, is the length).
+		pr.Enabled = ex != "" && ex != "0"
+		pr.Example = ex
 		if b := strings.TrimSpace(r.Cell(1)); b != "" {
 			n, err := strconv.Atoi(b)
 			if err != nil {
